@@ -125,9 +125,11 @@ fn c09_try_c<A: Subject>(run: &Run, bytes: &[u8], p: &PathBuf, cfg: &Cfg, mode: 
   let r = std::panic::catch_unwind(std::panic::AssertUnwindSafe(|| open::<A>(p, o, mode)));
   run.eval(1);
   run.trans(1);
-  let prefix = cfg.data_offset();
+  // the arena window starts at `file_offset` of the file
+  let foff = cfg.file_offset as usize;
+  let prefix = foff + cfg.data_offset();
   let too_small = bytes.len() < prefix;
-  let must_fail = too_small || mismatch(&bytes[cfg.reserved as usize..cfg.reserved as usize + 8], mode.writable(), expect_fl, expect_magic);
+  let must_fail = too_small || mismatch(&bytes[foff + cfg.reserved as usize..foff + cfg.reserved as usize + 8], mode.writable(), expect_fl, expect_magic);
   let case = json!({"engine": "c09", "flavour": A::FLAVOUR, "cfg": cfg, "mode": mode, "cap": capo, "create": create, "expect_fl": expect_fl, "expect_magic": expect_magic, "what": what, "file_len": bytes.len()});
   let class_what = what.split(' ').next().unwrap_or("");
   match r {
@@ -164,7 +166,8 @@ fn c09_files<A: Subject>(run: &Run, cfg: &Cfg, thorough: bool) {
   let good = std::fs::read(&src).unwrap();
   let _ = std::fs::remove_file(&src);
   let p = fresh_path("c09");
-  let r0 = cfg.reserved as usize;
+  let foff = cfg.file_offset as usize;
+  let r0 = foff + cfg.reserved as usize;
   crate::crashguard::set_case(crate::crashguard::head_of(&json!({"engine": "c09", "tag": "C09", "cfg": cfg, "flavour": A::FLAVOUR})));
   let expects: Vec<(Fl, u16)> = {
     let mut v = vec![(cfg.fl, cfg.magic), (cfg.fl, cfg.magic + 1)];
@@ -254,7 +257,11 @@ fn c09_files<A: Subject>(run: &Run, cfg: &Cfg, thorough: bool) {
     run.nontrivial.insert(hash_of(&(A::SYNC, cfg, i)));
   }
   // (b) truncation to every length up to a little beyond the header
-  for len in 0..=cfg.data_offset() + 8 {
+  let mut lens: Vec<usize> = (foff..=foff + cfg.data_offset() + 8).collect();
+  if foff > 0 {
+    lens.extend([0, 1, foff - 1]);
+  }
+  for len in lens {
     let b = good[..len].to_vec();
     let what = format!("truncated to {} bytes (prefix {})", len, cfg.data_offset());
     for mode in Mode::ALL {
@@ -450,7 +457,18 @@ pub fn check_c09(tier: Tier) -> i32 {
       cells.push(c);
     }
   }
-  let items: Vec<(Cfg, bool, u8)> = cells.iter().flat_map(|c| [(*c, true, 0u8), (*c, false, 0), (*c, true, 1), (*c, false, 1)]).collect();
+  let mut items: Vec<(Cfg, bool, u8)> = cells.iter().flat_map(|c| [(*c, true, 0u8), (*c, false, 0), (*c, true, 1), (*c, false, 1)]).collect();
+  // arenas that start at a page-aligned offset of their file: the same file mutations, applied inside the window
+  for fl in Fl::ALL {
+    let mut c = Cfg::new(fl, Backend::File, true, 200);
+    c.magic = 0x0102;
+    c.file_offset = 4096;
+    items.push((c, true, 0));
+    if thorough {
+      items.push((c, false, 0));
+      items.push((c, true, 1));
+    }
+  }
   par_for_each(&items, |_, (c, sync, part)| match (part, sync) {
     (0, true) => c09_files::<sync::Arena>(&run, c, thorough),
     (0, false) => c09_files::<unsync::Arena>(&run, c, thorough),
@@ -458,7 +476,7 @@ pub fn check_c09(tier: Tier) -> i32 {
     (_, false) => c09_readonly::<unsync::Arena>(&run, c, if thorough { 3 } else { 2 }),
   });
   run.sample(|| json!({"file": "valid Optimistic arena file (capacity 200): live 24-byte block, one free segment, cursor rewound so that non-zero stale bytes lie above it", "mutant": "identification byte +4 (magic version, low byte) set to 0x03", "open": "map_mut with capacity = same, expecting the stored free-list kind and magic version", "expected": "refused, file bytes unchanged"}));
-  run.rule("6 valid files (3 free-list kinds x reserved {0,5}) x [each of the 8 identification bytes x 255 other values] + every truncation length 0..=prefix+8 + arbitrary files of length 0..=64 (3 fills) + garbage cursors, x 4 open variants x capacity option x expected (free list, magic version); every refused open is compared byte for byte with the file before; read-only sessions: every sequence of <= 2 (3) calls of the safe mutating API on map / map_copy_read_only arenas; evaluations = opens + sessions");
+  run.rule("6 valid files (3 free-list kinds x reserved {0,5}), plus 3 whose arena starts at file offset 4096, x [each of the 8 identification bytes x 255 other values] + every truncation length 0..=prefix+8 + arbitrary files of length 0..=64 (3 fills) + garbage cursors, x 4 open variants x capacity option x expected (free list, magic version); every refused open is compared byte for byte with the file before; read-only sessions: every sequence of <= 2 (3) calls of the safe mutating API on map / map_copy_read_only arenas; evaluations = opens + sessions");
   run.set("bounds", json!({"files": 6, "readonly_session_depth": if thorough { 3 } else { 2 }, "capacity_options": ["absent", "same", "+64"]}));
   run.finish()
 }
